@@ -38,6 +38,8 @@ type byteEnv struct {
 	base ssa.Value   // the scanned slice
 	idx  ssa.Value   // the loop index
 	vals map[int]int // offset -> byte value
+	// extra binds further SSA values (e.g. the result of a Peek() call) to a byte value
+	extra map[ssa.Value]int64
 }
 
 func (e *byteEnv) offsetOf(index ssa.Value) (int, bool) {
@@ -77,6 +79,11 @@ func truncTo(t types.Type, x int64) int64 {
 }
 
 func (e *byteEnv) eval(v ssa.Value) (int64, bool) {
+	if e.extra != nil {
+		if x, ok := e.extra[v]; ok {
+			return x, true
+		}
+	}
 	switch x := v.(type) {
 	case *ssa.Const:
 		if b, ok := constBool(x); ok {
